@@ -41,7 +41,16 @@ def ridge_map(np, H, W, ridges, endpoints):
                     if 0 <= y + dy < H:
                         m[y + dy, x, 0] = asc
                         m[y + dy, x, 1] = desc
-        if endpoints:
+        if endpoints == 'centred':
+            # 3 x 3 end-point responses centred ON the first and the last ridge pixel (they overlap the ridge: the end-point
+            # subtraction then trims the component, which parse() compensates for)
+            for xe in (x0, x0 + L - 1):
+                ye = int(round(y0 + sl * (xe - x0)))
+                for dx in (-1, 0, 1):
+                    for dy in (-1, 0, 1):
+                        if 0 <= xe + dx < W and 0 <= ye + dy < H:
+                            m[ye + dy, xe + dx, 3] = 1.0
+        elif endpoints:
             for xe in (x0 - 1, x0 + L):
                 ye = int(round(y0 + sl * (xe - x0)))
                 for dx in (-1, 0, 1):
@@ -230,6 +239,11 @@ def plans(thorough):
         for ep in (False, True):
             for ds in (1, 2, 4, 8):
                 out.append(('parse', (r,), ep, ds))
+    for L in (6, 7, 8, 9, 12, 20):
+        for (a, d) in hs:
+            for ds in (1, 4):
+                out.append(('parse', ((30, 40, L, 0.0, a, d),), 'centred', ds))
+    out.append(('parse', ((10, 15, 60, 0.0, 5.0, 2.0), (40, 35, 6, 0.0, 9.0, 3.0), (25, 55, 8, 0.0, 12.0, 6.0), (60, 75, 6, 0.0, 4.0, 2.0)), 'centred', 1))
     pairs = []
     for (La, Lb) in ((60, 20), (20, 60), (20, 20), (6, 60)):
         for (xa, xb) in ((10, 40), (40, 10), (10, 10)):
